@@ -308,7 +308,7 @@ def diff_keyed(want, got, path, out):
 
 
 def short(us):
-    return [str(u)[:4] for u in us]
+    return [str(u)[-4:] for u in us]
 
 
 def classify(path, kind, val):
@@ -383,7 +383,9 @@ class World:
         rng = self.rng
         pool = self.flows + ([] if defined_only else self.ext_flows)
         if not pool:
-            nm = (f"ext {word(rng)} q", U(rng))
+            pool = self.ext_flows
+        if not pool:
+            nm = (f"ext {word(rng)} q{len(self.ext_flows)}", U(rng))
             self.ext_flows.append(nm)
             pool = [nm]
         n, u = rng.choice(pool)
